@@ -14,9 +14,9 @@ import ast
 from ..engine import rule, run_property
 from ..model import Undecided
 from ..cfg import dotted, call_name, is_call, simple_name, unparse, const_value, contains, enclosing
-from ..flow import Canon, Defs, depends
+from ..flow import Canon, Defs, depends, expand
 from ..axis import axis_reports
-from ..util import keyword, returns_of, calls_in, inside, order_key
+from ..util import origin_path, keyword, returns_of, calls_in, inside, order_key
 
 NOT_DECIDED = ('everything about pixel content: resampling error, mesh reprojection accuracy, meta-tile stitching arithmetic, '
                'unresampled delivery of exact tiles')
@@ -271,3 +271,79 @@ def c01e(ctx):
     ok = all(got.get(k) == v for k, v in want.items())
     ctx.check(ok, 'WMSClient._query_req:query-to-params', 'bbox, size, srs code and format of the query are what is written into the upstream request', fn,
               fail='the upstream request parameters are not the bbox/size/srs/format of the query: %s' % {k: got.get(k) for k in want})
+
+
+@rule('C01.f', floor=5)
+def c01f(ctx):
+    """mosaics are positional: TileMerger places list entry i at grid slot i.  Every list handed to TiledImage keeps one entry per
+    tile of the grid-ordered collection (a missing tile is an entry None, never a removed entry), comes from the same
+    get_affected_* call as the grid shape it is laid out with, and the merger indexes by the position in that list"""
+    sites = 0
+    for qn in ('mapproxy/cache/tile.py:TileManager._scaled_tile', 'mapproxy/layer.py:CacheMapLayer._image'):
+        fn = ctx.fn(qn)
+        cf = Canon(fn)
+        defs = Defs(fn.node)
+        for x in [c for c in fn.walk() if is_call(c, 'TiledImage')]:
+            sites += 1
+            arg = x.args[0] if x.args else keyword(x, 'tiles')
+            form = cf.expr(arg) if arg is not None else None
+            inner = form.args[0] if is_call(form, 'list', 'tuple') and form.args else form
+            ok = isinstance(inner, (ast.ListComp, ast.GeneratorExp)) and len(inner.generators) == 1 and not inner.generators[0].ifs
+            ok = ok or (is_call(inner, 'map') and len(inner.args) == 2)
+            ctx.check(ok, '%s:one-entry-per-tile' % fn.short, 'the tile list given to TiledImage has exactly one entry per tile of the collection '
+                      '(no filter: position i is grid slot i)', fn, x,
+                      fail='the list given to TiledImage is filtered (%s): after a removed entry every later tile is pasted one slot too early'
+                           % (unparse(form)[:80] if form is not None else '?'))
+            # grid shape and tile list from the same get_affected_* call
+            tg = keyword(x, 'tile_grid', 1)
+            sb = keyword(x, 'src_bbox', 3)
+            def rootidx(e):
+                f = cf.expr(e)
+                if isinstance(f, ast.Subscript) and isinstance(const_value(f.slice), int):
+                    return unparse(f.value), (const_value(f.slice),)
+                return unparse(f), ()
+            ro = [rootidx(e) for e in (tg, sb) if e is not None]
+            coll = inner.generators[0].iter if isinstance(inner, (ast.ListComp, ast.GeneratorExp)) else None
+            src_call = None
+            if coll is not None:
+                # closed form: load_tile_coords(<get_affected_*(..)[2]>, ..) (possibly wrapped in TileCollection(..))
+                for c in ast.walk(coll):
+                    if is_call(c, 'load_tile_coords', '_load_tile_coords') and c.args:
+                        for c2 in ast.walk(c.args[0]):
+                            if isinstance(c2, ast.Subscript) and is_call(c2.value, 'get_affected_tiles', 'get_affected_level_tiles') and \
+                                    isinstance(const_value(c2.slice), int):
+                                src_call = (unparse(c2.value), (const_value(c2.slice),))
+            ok = len(ro) == 2 and ro[0][0] == ro[1][0] and 'get_affected' in ro[0][0] and ro[0][1] == (1,) and ro[1][1] == (0,) and \
+                src_call is not None and src_call[0] == ro[0][0] and src_call[1] == (2,)
+            ctx.check(ok, '%s:grid-and-tiles-of-one-call' % fn.short, 'src_bbox, tile_grid and the tile coordinates are the three results of one '
+                      'get_affected_* call', fn, x,
+                      fail='the mosaic is laid out with a grid shape / bbox that does not belong to the tile list')
+    if sites < 2:
+        raise Undecided('TiledImage sites: %d' % sites)
+    mg = ctx.fn('mapproxy/image/tile.py:TileMerger.merge')
+    loops = [l for l in mg.walk() if isinstance(l, ast.For) and is_call(l.iter, 'enumerate')]
+    ok = len(loops) == 1 and len(loops[0].iter.args) == 1 and unparse(loops[0].iter.args[0]) == mg.params[1] and \
+        isinstance(loops[0].target, ast.Tuple) and len(loops[0].target.elts) == 2
+    if ok:
+        iv = unparse(loops[0].target.elts[0])
+        off = [c for c in ast.walk(loops[0]) if is_call(c, 'self._tile_offset')]
+        ok = bool(off) and all(len(c.args) == 1 and unparse(c.args[0]) == iv for c in off)
+    ctx.check(ok, 'TileMerger.merge:slot-is-list-position', 'tile i of the list is pasted at _tile_offset(i); empty entries are skipped inside the '
+              'enumeration (their slot stays empty)', mg,
+              fail='the merger does not place entry i of the list at grid slot i')
+    ti = ctx.fn('mapproxy/image/tile.py:TiledImage.image')
+    ok = any(is_call(c, 'TileMerger') and len(c.args) >= 2 and unparse(c.args[0]) == 'self.tile_grid' and unparse(c.args[1]) == 'self.tile_size' for c in ti.walk()) and \
+        any(is_call(c, 'merge') and c.args and unparse(c.args[0]) == 'self.tiles' for c in ti.walk())
+    ctx.check(ok, 'TiledImage.image:passes-own-grid', 'TiledImage merges its own tiles with its own grid shape and tile size', ti)
+
+
+@rule('C01.g', floor=1)
+def c01g(ctx):
+    """content cut out of a meta tile lands at the right place in its tile: tiles at a truncated meta-tile border keep their
+    overhang offset (shared rule C04.e)"""
+    sub = run_property(ctx.repo, 'C04', ctx.tier, only={'C04.e'})
+    for er in sub.errors:
+        raise Undecided('shared rule %s: %s' % er)
+    for o in sub.obs:
+        (ctx.ok if o.status == 'ok' else ctx.bad)('%s:%s' % (o.rule, o.construct), o.msg, o.where)
+    ctx.stats['functions'] |= sub.stats['functions']
